@@ -42,15 +42,17 @@ class Program:
     family: str = ""
     note: str = ""
     env_globals: dict = field(default_factory=dict)
+    known: tuple | None = None  # (finding signature, region(env, prog) -> z3 Bool): inputs of a listed known finding
 
     @property
     def name(self):
         lay = ",".join(f"{s.name}:{s.how}{s.nrows}r/{s.npart if s.cuts is None else s.cuts}" for s in self.srcs)
         return f"{self.text} @ {lay}"
 
-    def build(self, colls: dict):
+    def build(self, colls: dict, overrides=None):
         g = {"np": np, "pd": pd}
         g.update(self.env_globals)
+        g.update(overrides or {})
         return eval(self.text, g, dict(colls))
 
 
@@ -87,7 +89,7 @@ def make_collections(prog: Program, frames: dict, present: dict | None = None):
             parts = [pdf.iloc[a:b] for a, b in zip(cuts, cuts[1:])]
             if present is not None and s.name in present:
                 keep = present[s.name]
-                parts = [p[[keep[i] for i in range(a, b)]] for p, (a, b) in zip(parts, zip(cuts, cuts[1:]))]
+                parts = [p[np.array([keep[i] for i in range(a, b)], dtype=bool)] for p, (a, b) in zip(parts, zip(cuts, cuts[1:]))]
             meta = pdf.iloc[:0]
             if s.how == "delayed":
                 out[s.name] = dx.from_delayed([delayed(p) for p in parts], meta=meta, divisions=s.divisions, verify_meta=False)
@@ -363,10 +365,14 @@ def _compare_paths(prog, env, name, sig, stage, ref_paths, st_paths, t0, ref_sta
                 continue
             if r == "unknown":
                 return Result(name, INCONCLUSIVE, "", "z3 unknown/timeout", solver_s=total_s, queries=nq)
-            # provenance-keyed comparison can be stricter than multiset equality: confirm with the generic encoding
-            if not prog.ordered and hasattr(va, "valid") and not isinstance(va, Parts):
+            # the provenance-keyed comparison can be stricter than equality of the results: confirm with the
+            # generic (provenance-free) encoding before believing the model
+            if hasattr(va, "valid") and not isinstance(va, Parts):
                 try:
-                    eq2 = equiv.equal_multiset(va, vb, prog.check_index)
+                    if prog.ordered and not isinstance(getattr(va, "order", None), str) and not isinstance(getattr(vb, "order", None), str):
+                        eq2 = equiv.equal_sequence(va, vb, prog.check_index)
+                    else:
+                        eq2 = equiv.equal_multiset(va, vb, prog.check_index)
                     r2, model2, dt2 = solve(env.constraints, z3.And(pca, pcb, z3.Not(eq2)))
                     total_s += dt2
                     nq += 1
@@ -375,8 +381,10 @@ def _compare_paths(prog, env, name, sig, stage, ref_paths, st_paths, t0, ref_sta
                     if r2 == "sat":
                         model = model2
                     else:
-                        return Result(name, INCONCLUSIVE, "", "z3 unknown on generic multiset encoding", solver_s=total_s, queries=nq)
+                        return Result(name, INCONCLUSIVE, "", "z3 unknown on the generic encoding", solver_s=total_s, queries=nq)
                 except equiv.Mismatch:
+                    pass
+                except Unsupported:
                     pass
             tables = conc.tables_from_model(env, model)
             differs, msg = replay_stage(prog, tables, stage, ref_stage)
@@ -799,4 +807,169 @@ def check_schema(prog: Program) -> list[Result]:
             out.append(Result(name, VIOLATION, sig, f"partition {bad[0]}: {bad[1]}; real execution: {real_bad[0]}", {"engine": "P", "program": prog.name, "stage": label}))
         else:
             out.append(Result(name, HARNESS_ERROR, sig, f"model partition {bad[0]} has {bad[1]} but real execution matches its meta: label model error"))
+    return out
+
+
+# ---------------------------------------------------------------------------------------------- C02 reference semantics
+
+REFUSALS = (NotImplementedError, ValueError)
+
+
+def pandas_reference(prog: Program, tables):
+    from symdf.shim import Pd, PdDX
+
+    frames, present = _frames_of(tables)
+    colls = {}
+    for s in prog.srcs:
+        df = frames[s.name]
+        keep = present.get(s.name)
+        if keep is not None and not all(keep):
+            df = df[list(keep)]
+        colls[s.name] = Pd(df)
+    out = prog.build(colls, {"dx": PdDX})
+    return Pd.unwrap(out)
+
+
+def check_reference(prog: Program, validate=2) -> list[Result]:
+    """C02: the optimised partitioned plan computes what pandas computes on the unpartitioned table (reference = the
+    same program text applied to whole-table symbolic frames), or refuses explicitly."""
+    init()
+    from symdf import core, equiv, conc
+    from symdf.core import Unsupported, StructuralError, ModelledMisalignment
+    from symdf.interp import GraphError
+    from symdf.shim import SymDX
+    from dask_expr._expr import optimize
+
+    name = f"{prog.name}|vs-pandas"
+    sig = _sig(prog, "vs-pandas")
+    env, frames = make_env(prog)
+
+    def mk():
+        s = z3.Solver()
+        s.set("timeout", 10000)
+        return s
+
+    try:
+        whole = {n: env.convert(f) for n, f in frames.items()}
+        ref_paths = core.explore(lambda: prog.build({k: v._with() for k, v in whole.items()}, {"dx": SymDX}), mk, base=env.constraints)
+    except Unsupported as e:
+        return [Result(name, SKIPPED, "", f"unsupported in reference semantics: {e}", extra={"unsupported": str(e)})]
+    except StructuralError as e:
+        return [Result(name, SKIPPED, "", f"reference semantics fails structurally: {e}")]
+    except Exception as e:
+        return [Result(name, SKIPPED, "", f"reference semantics: {type(e).__name__}: {str(e)[:200]}", extra={"unsupported": f"{type(e).__name__}: {str(e)[:80]}"})]
+
+    def replay(tables):
+        fr, present = _frames_of(tables)
+        try:
+            ref = pandas_reference(prog, tables)
+        except Exception as e:
+            return None, f"pandas itself raises {type(e).__name__}: {str(e)[:150]}"
+        try:
+            q = prog.build(make_collections(prog, fr, present))
+            got = concrete(optimize(q.expr, fuse=True))
+        except REFUSALS as e:
+            return False, f"partitioned plan refuses: {type(e).__name__}: {str(e)[:150]}"
+        except Exception as e:
+            return True, f"partitioned plan raises {type(e).__name__}: {str(e)[:200]} while pandas computes"
+        chk = prog.check_index
+        same, msg = conc.same_pandas(ref, got, prog.ordered, chk, check_names=True)
+        return (not same), msg
+
+    # translator validation of the reference semantics against real pandas
+    if validate:
+        rng = np.random.default_rng(seed() * 104729 + (hash(prog.text) & 0xFFFF))
+        for _ in range(validate):
+            tables = conc.random_tables(env, rng)
+            if any(env.sources[n].get("sym_index") for n in tables):
+                tables = _random_index(prog, env, tables, rng)
+            try:
+                real = pandas_reference(prog, tables)
+            except Exception:
+                continue
+            ev = conc.Evaluator(conc.assignment(env, tables))
+            try:
+                hit = [v for pc, v in ref_paths if ev(pc)]
+                if not hit or isinstance(hit[0], Exception):
+                    continue
+                got = conc.eval_result(hit[0], ev)
+            except NotImplementedError:
+                break
+            idx = getattr(hit[0], "index_", None) or getattr(hit[0], "idx", None)
+            chk = prog.check_index and (idx is None or idx.defined)
+            same, msg = conc.same_pandas(real, got, prog.ordered, chk, check_names=False)
+            if not same:
+                return [Result(name + "|validate", HARNESS_ERROR, "", f"reference semantics disagrees with real pandas: {msg}; tables={ {k: v[0].to_dict('list') for k, v in tables.items()} } index={ {k: v[0].index.tolist() for k, v in tables.items()} }")]
+    try:
+        q = prog.build(make_collections(prog, frames))
+        pl = optimize(q.expr, fuse=True)
+    except REFUSALS as e:
+        return [Result(name, HELD, "", f"refuses at planning time: {type(e).__name__}: {str(e)[:120]}", extra={"trivial": True})]
+    except Exception as e:
+        differs, msg = replay(conc.tables_from_model(env, None, 1))
+        return [Result(name, VIOLATION if differs else SKIPPED, sig, f"planning fails: {type(e).__name__}: {str(e)[:200]}; replay: {msg}", {"engine": "P", "program": prog.name, "stage": "vs-pandas"})]
+    try:
+        got_paths, it = symexec(pl, env)
+    except Unsupported as e:
+        differs, msg = replay(conc.tables_from_model(env, None, 1))
+        if differs and "raises" in msg:
+            return [Result(name, VIOLATION, sig, f"plan fails for every input ({e}); replay: {msg}", {"engine": "P", "program": prog.name, "stage": "vs-pandas"})]
+        return [Result(name, SKIPPED, "", f"unsupported in plan: {e}", extra={"unsupported": str(e)})]
+    except (StructuralError, GraphError) as e:
+        differs, msg = replay(conc.tables_from_model(env, None, 1))
+        return [Result(name, VIOLATION if differs else HARNESS_ERROR, sig, f"plan fails for every input: {e}; replay: {msg}", {"engine": "P", "program": prog.name, "stage": "vs-pandas"})]
+    # refusals are allowed, other exceptions are candidates; reference paths that raise are outside the comparison
+    ref_ok = [(pc, v) for pc, v in ref_paths if not isinstance(v, Exception)]
+    if not ref_ok:
+        return [Result(name, SKIPPED, "", f"reference raises on every path: {ref_paths[0][1]!r}", extra={"unsupported": "reference raises"})]
+    got2 = []
+    for pc, v in got_paths:
+        if isinstance(v, REFUSALS) or isinstance(v, ModelledMisalignment):
+            continue  # explicit refusal (or an alignment case the model cannot decide): not a wrong answer
+        got2.append((pc, v))
+    global replay_stage
+    saved = replay_stage
+    out = []
+    base = list(env.constraints)
+    try:
+        replay_stage = lambda prog_, tables, stage, ref_stage="unopt": replay(tables)  # noqa: E731
+        if prog.known is not None:
+            ksig, region_fn = prog.known
+            region = region_fn(env, prog)
+            # (1) outside the listed finding's input region the property must hold
+            env.constraints = base + [z3.Not(region)]
+            r = _compare_paths(prog, env, name, sig, "vs-pandas", ref_ok, got2, time.time())
+            # (2) inside it the finding is re-observed (or has disappeared)
+            env.constraints = base + [region]
+            k = _compare_paths(prog, env, name + "|known-region", ksig, "vs-pandas", ref_ok, got2, time.time())
+            k.signature = ksig if k.status == VIOLATION else k.signature
+            out.append(k)
+        else:
+            r = _compare_paths(prog, env, name, sig, "vs-pandas", ref_ok, got2, time.time())
+    finally:
+        replay_stage = saved
+        env.constraints = base
+    r.extra["callables"] = sorted(set(it.calls))[:60] if it else []
+    r.extra["refusing_paths"] = len(got_paths) - len(got2)
+    return [r] + out
+
+
+def _random_index(prog, env, tables, rng):
+    """random index labels inside the declared divisions (sorted inside each partition)"""
+    out = dict(tables)
+    for s in prog.srcs:
+        if s.divisions is None or s.how not in ("delayed", "map", "graph"):
+            continue
+        df, present = tables[s.name]
+        cuts = s.cuts or tuple(int(round(i * s.nrows / s.npart)) for i in range(s.npart + 1))
+        idx = []
+        np_ = len(cuts) - 1
+        for p, (a, b) in enumerate(zip(cuts, cuts[1:])):
+            lo, hi = s.divisions[p], s.divisions[p + 1]
+            hi_incl = hi if p == np_ - 1 else hi - 1
+            vals = sorted(int(x) for x in rng.integers(lo, max(lo, hi_incl) + 1, size=b - a))
+            idx += vals
+        df = df.copy()
+        df.index = pd.Index(idx, dtype="int64", name=df.index.name)
+        out[s.name] = (df, present)
     return out
